@@ -72,6 +72,13 @@ fn put_cubics<S: Fl>(o: &mut Out, cs: &[CubicBezierSegment<S>]) {
     }
 }
 
+fn put_flat<S: Fl>(o: &mut Out, fs: &[(Point<S>, Point<S>, S, S)]) {
+    o.t("flat").u(fs.len() as u64);
+    for (a, b, t0, t1) in fs {
+        o.p(*a).p(*b).f(*t0).f(*t1);
+    }
+}
+
 // ---------------------------------------------------------------------------------------------
 // f64 reference
 
@@ -409,7 +416,19 @@ fn svg_case<S: Fl>(ctx: &mut Ctx) {
         let (s, gtag) = gen_svg::<S>(rng);
         let mut args = Out::new();
         put_svg(&mut args, &s);
+        // flattening tolerance: a fraction of the larger radius (or of the chord), so that the
+        // number of segments stays moderate
         let straight = s.is_straight_line();
+        let scale = if straight {
+            1.0
+        } else {
+            // the radii after the F.6.6 scaling (which can be huge for a radius just above S::EPSILON)
+            let a = s.to_arc();
+            let m = a.radii.x.f().abs().max(a.radii.y.f().abs());
+            if m.is_finite() { m.max(1e-6) } else { 1.0 }
+        };
+        let tol: S = S::of(scale * 10f64.powf(rng.uniform(-3.0, -0.5)));
+        args.f(tol);
         let tag = format!("svg {} {}{}", S::BITS, gtag, if straight { " straight" } else { "" });
         (args, tag, move || {
             let mut o = Out::new();
@@ -420,9 +439,16 @@ fn svg_case<S: Fl>(ctx: &mut Ctx) {
             s.for_each_quadratic_bezier(&mut |q| plain.push(*q));
             let mut cubics = Vec::new();
             s.for_each_cubic_bezier(&mut |c| cubics.push(*c));
+            let mut flat_t = Vec::new();
+            s.for_each_flattened_with_t(tol, &mut |l, r| flat_t.push((l.from, l.to, r.start, r.end)));
+            let mut flat = Vec::new();
+            s.for_each_flattened(tol, &mut |l| flat.push((l.from, l.to)));
             if straight {
                 put_quads(&mut o, &quads);
                 put_cubics(&mut o, &cubics);
+                put_flat(&mut o, &flat_t);
+                let okf = flat_t.len() == 1 && flat_t[0].0 == s.from && flat_t[0].1 == s.to && flat_t[0].2.f() == 0.0 && flat_t[0].3.f() == 1.0;
+                orc.check(okf, "svg.straight/flattened_with_t", "generic", || format!("n={}", flat_t.len()));
                 // SVG: an arc with a zero radius or coincident end points is a straight line
                 let okq = quads.len() == 1 && quads[0].0.from == s.from && quads[0].0.to == s.to && quads[0].1.f() == 0.0 && quads[0].2.f() == 1.0;
                 let okc = cubics.len() == 1 && cubics[0].from == s.from && cubics[0].to == s.to;
@@ -446,6 +472,7 @@ fn svg_case<S: Fl>(ctx: &mut Ctx) {
             put_svg(&mut o, &back);
             put_quads(&mut o, &quads);
             put_cubics(&mut o, &cubics);
+            put_flat(&mut o, &flat_t);
 
             // ---- oracle
             let r = ref_convert(pf(s.from), pf(s.to), (s.radii.x.f(), s.radii.y.f()), s.x_rotation.radians.f(), s.flags.large_arc, s.flags.sweep);
@@ -495,6 +522,39 @@ fn svg_case<S: Fl>(ctx: &mut Ctx) {
             }
             // Bézier sequences of the wrappers, against the converted arc
             bezier_oracle(&mut orc, "svg", &arc, &quads, &plain, &cubics);
+            // flattening wrappers: same polyline with and without ranges; connected from the arc's start to
+            // its end; ranges 0 → 1 in order; every vertex on the ellipse; every chord within the tolerance
+            {
+                let same = flat.len() == flat_t.len() && flat.iter().zip(&flat_t).all(|(a, b)| a.0 == b.0 && a.1 == b.1);
+                orc.check(same, "svg.flattened/with_t-same", "generic", || format!("{} vs {} segments", flat.len(), flat_t.len()));
+                let n = flat_t.len();
+                let ftol = round_tol::<S>(&e, e.rmin().recip() * 0.0 + arc.start_angle.radians.f().abs() + sw.abs() * (1.0 + n as f64), 0.0);
+                orc.check(n >= 1, "svg.flattened/nonempty", "generic", || "no segment".into());
+                if n >= 1 {
+                    orc.check(d2(pf(flat_t[0].0), pf(arc.from())) <= ftol, "svg.flattened/starts-at-from", "generic", || format!("{:?}", flat_t[0].0));
+                    orc.check(flat_t[n - 1].1 == arc.to(), "svg.flattened/ends-at-to", "generic", || format!("{:?}", flat_t[n - 1].1));
+                    orc.check(flat_t[0].2.f() == 0.0 && flat_t[n - 1].3.f() == 1.0, "svg.flattened/range-0-1", "generic", || format!("{}..{}", flat_t[0].2.f(), flat_t[n - 1].3.f()));
+                    let mut worst = 0.0f64;
+                    let mut worst_v = 0.0f64;
+                    for i in 0..n {
+                        if i + 1 < n {
+                            orc.check(flat_t[i].1 == flat_t[i + 1].0 && flat_t[i].3 == flat_t[i + 1].2, "svg.flattened/connected", "generic", || format!("segment {}", i));
+                        }
+                        orc.check(flat_t[i].2.f() <= flat_t[i].3.f(), "svg.flattened/range-ordered", "generic", || format!("segment {}", i));
+                        worst_v = worst_v.max(e.dev(pf(flat_t[i].1)));
+                        let (a, b) = (pf(flat_t[i].0), pf(flat_t[i].1));
+                        let mid = ((a.0 + b.0) / 2.0, (a.1 + b.1) / 2.0);
+                        // distance of the chord's mid point to the ellipse ≤ normalised deviation × larger radius
+                        worst = worst.max(e.dev(mid) * e.rmax());
+                    }
+                    let vtol = ftol / e.rmin();
+                    orc.check(worst_v <= vtol, "svg.flattened/vertices-on-ellipse", "generic", || format!("normalised deviation {:e} tol {:e}", worst_v, vtol));
+                    // the step is sized for a circle of the larger radius, so the sagitta bound holds for the unit-frame
+                    // deviation scaled by the larger radius
+                    let sag = tol.f() * (1.0 + 1e-3) + ftol * e.ecc().min(1e6);
+                    orc.check(worst <= sag, "svg.flattened/tolerance", "generic", || format!("chord deviation {:e} tolerance {:e}", worst, tol.f()));
+                }
+            }
             // end points (last: the known fast_atan2 drift must not mask the clauses above)
             let m = pf(s.from).0.abs().max(pf(s.from).1.abs()).max(pf(s.to).0.abs()).max(pf(s.to).1.abs());
             let tol = round_tol::<S>(&r.e, TWO_PI, m) + 64.0 * S::EPS * ecc * r.e.rmax();
